@@ -270,6 +270,12 @@ class Interp:
         if isinstance(st, (ast.FunctionDef, ast.AsyncFunctionDef)):
             env[st.name] = Closure(self, st, env)
             return
+        if isinstance(st, ast.ClassDef) and not st.bases and not st.keywords:
+            methods = {x.name: x for x in st.body if isinstance(x, (ast.FunctionDef, ast.AsyncFunctionDef))}
+            assigns = {x.targets[0].id: x.value for x in st.body if isinstance(x, ast.Assign) and len(x.targets) == 1
+                       and isinstance(x.targets[0], ast.Name)}
+            env[st.name] = self.make_class(st.name, methods, assigns, env)
+            return
         raise AnalysisError(f"abstract interpreter: unsupported statement `{unparse(st)[:60]}`")
 
     def to_raised(self, v) -> Raised:
@@ -378,7 +384,9 @@ class Interp:
                     self.globals[e.id] = v
                     return v
                 if e.id in getattr(self.module, "classes", {}):
-                    v = Obj(f"class {e.id}", _is_class=True, __name__=e.id)
+                    ci = self.module.classes[e.id]
+                    v = self.make_class(e.id, {m: f.node for m, f in getattr(ci, "methods", {}).items()},
+                                        dict(getattr(ci, "assigns", {}) or {}), {})
                     self.globals[e.id] = v
                     return v
                 fn = self.module.functions.get(e.id)
@@ -490,6 +498,10 @@ class Interp:
             return self.comprehension(e, env)
         if isinstance(e, ast.Starred):
             return self.ev(e.value, env)
+        if isinstance(e, ast.NamedExpr):
+            v = self.ev(e.value, env)
+            self.assign(e.target, v, env)
+            return v
         raise AnalysisError(f"abstract interpreter: unsupported expression `{unparse(e)[:60]}`")
 
     def _elts(self, elts, env):
@@ -534,12 +546,60 @@ class Interp:
         rec(0, dict(env))
         return set(out) if res_set else out
 
+    def make_class(self, name: str, methods: dict, assigns: dict, closure_env: dict) -> Obj:
+        """a class of the analysed module (or a class statement inside an interpreted function) as a modelled class object:
+        calling it makes an instance and runs the interpreted __init__; methods, properties and class-level constants are
+        found through the instance"""
+        cls_obj = Obj(f"class {name}", _is_class=True, _type=type, __name__=name, _methods=dict(methods), _class_assigns=dict(assigns),
+                      _closure=closure_env, _mro=())
+
+        def construct(*a, **k):
+            inst = Obj(name, _type=cls_obj, _mro=())
+            init = cls_obj.__dict__["_methods"].get("__init__")
+            if init is not None:
+                self.call_function(init, (inst,) + a, k, closure_env)
+            elif a or k:
+                raise Raised("TypeError", (f"{name}() takes no arguments",))
+            return inst
+        cls_obj.__dict__["_call"] = construct
+        return cls_obj
+
+    def _class_member(self, owner: Obj, cls_obj: Obj, attr: str):
+        """attr looked up on a modelled class: (found, value)"""
+        meths = cls_obj.__dict__.get("_methods") or {}
+        env = cls_obj.__dict__.get("_closure") or {}
+        if attr in meths:
+            node = meths[attr]
+            decos = [unparse(d) for d in getattr(node, "decorator_list", [])]
+            if "property" in decos or "cached_property" in decos:
+                return True, self.call_function(node, (owner,), {}, env)
+            if "staticmethod" in decos:
+                return True, (lambda *a, **k: self.call_function(node, a, k, env))
+            if "classmethod" in decos:
+                return True, (lambda *a, **k: self.call_function(node, (cls_obj,) + a, k, env))
+            if owner is cls_obj:
+                return True, (lambda *a, **k: self.call_function(node, a, k, env))
+            return True, (lambda *a, **k: self.call_function(node, (owner,) + a, k, env))
+        consts = cls_obj.__dict__.get("_class_assigns") or {}
+        if attr in consts:
+            return True, self.ev(consts[attr], dict(env))
+        return False, None
+
     def getattr(self, base, attr, node=None):
         if isinstance(base, Obj):
             if attr in base.__dict__:
                 return base.__dict__[attr]
             if attr == "__class__":
-                return base._cls
+                return base.__dict__.get("_type") or base._cls
+            tp = base.__dict__.get("_type")
+            if isinstance(tp, Obj) and "_methods" in tp.__dict__:
+                found, v = self._class_member(base, tp, attr)
+                if found:
+                    return v
+            if base.__dict__.get("_is_class") and "_methods" in base.__dict__:
+                found, v = self._class_member(base, base, attr)
+                if found:
+                    return v
             m = self.methods.get(attr)
             if m is not None:
                 return lambda *a, **k: self.call_function(m, (base,) + a, k)
